@@ -31,18 +31,19 @@ ID = "C13"
 LEVEL = "fault_enumeration"
 RULE = (
     "a case = one seed document with one fault (site x kind, payload position x kind, or truncation offset), run "
-    "through extract_text, extract_pages, extract_text_to_fp(xml) and - for the seeds with images - the image export "
+    "through extract_text, extract_pages, extract_text_to_fp(xml), extract_text_to_fp(html) (all but truncations) and - for the seeds with images - the image export "
     "extract_text_to_fp(output_dir) under a step budget; the fault set is enumerated "
     "from the 12 seed documents of sim/seeds.py and does not depend on VERIF_SEED (quick: all faults, all truncation "
     "points of two seed documents, a stride of sample truncations; thorough: all). distinct = distinct faulted "
     "byte strings; non-trivial = the faulted bytes differ from the seed document."
 )
-COMPONENTS_REAL = ["all of pdfminer reachable from high_level.extract_text / extract_pages / extract_text_to_fp(xml) / extract_text_to_fp(output_dir) incl. ImageWriter, BMPWriter, JBIG2 reader/writer, CCITT decoder", "zlib", "the real file system under a per-case scratch directory"]
+COMPONENTS_REAL = ["all of pdfminer reachable from high_level.extract_text / extract_pages / extract_text_to_fp(xml) / extract_text_to_fp(html) / extract_text_to_fp(output_dir) incl. ImageWriter, BMPWriter, JBIG2 reader/writer, CCITT decoder", "zlib", "the real file system under a per-case scratch directory"]
 COMPONENTS_STUB = ["Pillow is absent: export formats that need it answer with the documented ImportError", "file-size cap RLIMIT_FSIZE 64 MB (simulated full disk)", "file object: io.BytesIO", "step clock: sys.monitoring PY_START|JUMP on pdfminer code objects", "address-space cap RLIMIT_AS", "producer: sim.seeds / sim.pdfwriter"]
 ASSUMPTIONS = [
     "documented exception family = subclasses of pdfminer.psexceptions.PSException (AssertionError is a violation)",
     "single faults only",
     "ImportError with pdfminer's own 'Could not import Pillow' text is the documented answer of the export when the optional dependency is missing, not a leak",
+    "memory bound: the resident-set high-water mark of the worker may not rise by more than max(128 MB, 2000 x (len + 5000)) during one call (catches allocation inside C calls that the step clock cannot see)",
     "output bound: disk blocks allocated by the export <= 2000 x (len + 5000) bytes (Flate expands at most ~1032:1); holes of sparse files do not count",
     "work bound: steps <= STEP_K * (len + STEP_C) monitored events (constant set at 20x the largest ratio seen on the baseline enumeration (29))",
 ]
@@ -98,6 +99,7 @@ VARIANTS = {
     "dict:empty": {},
     "array:nested": [[[]]],
     "int:2^31-1": 2147483647,
+    "int:10^8": 100000000,
     "real:overflow": Real("9" * 320 + ".5"),
 }
 SAMPLE = {"int": 7, "real": Real("2.5"), "string": Str(b"x"), "name": Name(b"Xq"), "array": [1, Name(b"A")], "dict": {b"K": 1}, "null": None, "bool": True}
@@ -536,6 +538,12 @@ def entry_points(data, seed_name="", fault=None):
         extract_text_to_fp(io.BytesIO(data), out, output_type="xml", codec="utf-8")
 
     yield "extract_text_to_fp(xml)", xml
+    if fault is not None and fault[0] != "truncate":
+
+        def html():
+            extract_text_to_fp(io.BytesIO(data), io.BytesIO(), output_type="html", codec="utf-8")
+
+        yield "extract_text_to_fp(html)", html
 
 
 SAMPLES = ["jo.pdf", "contrib/issue-00369-excel.pdf", "contrib/issue-1059-cmap-decode.pdf", "contrib/issue-1057-tiff-predictor.pdf", "contrib/issue-886-xref-stream-widths.pdf", "contrib/matplotlib.pdf", "contrib/pdf-with-jbig2.pdf"]
@@ -580,6 +588,7 @@ def run(tape, ctx, item=None):
     for name, fn in entry_points(data, seed.name, f):
         seams.CLOCK.start(budget)
         sig = None
+        rss0 = resource.getrusage(resource.RUSAGE_SELF).ru_maxrss
         try:
             fn()
             outcomes.append("ok")
@@ -614,6 +623,13 @@ def run(tape, ctx, item=None):
             sig = "%s@%s" % (type(e).__name__, where(e))
         finally:
             steps = seams.CLOCK.stop()
+        # work the step clock cannot see (allocation and I/O inside C calls): the process's memory high-water mark may
+        # not rise by more than max(128 MB, OUT_K x (len + STEP_C)) during one call
+        grown = (resource.getrusage(resource.RUSAGE_SELF).ru_maxrss - rss0) * 1024
+        if sig is None and grown > max(128 << 20, OUT_K * (len(data) + STEP_C)):
+            if outcomes:
+                outcomes.pop()
+            sig = "MemoryUnbounded@%s" % name.split("(")[0]
         ctx.steps += steps
         r = steps // (len(data) + STEP_C)
         if sig is None and r > ctx.probes.get("max steps per (byte+%d)" % STEP_C, 0):
